@@ -126,7 +126,45 @@ Example no_phantom_sync_example :
   no_phantom_sync [(EStartSync 1 (mkSync (mkW (mkSK (mkPK [] 0) 0) 7 7) WIdle false) 0, [])].
 Proof. intros c a t h [Heq|[]]. inversion Heq; subst. reflexivity. Qed.
 
-(* NOT PROVED (docs/areas/Sched-proofs.md):
-   the converse direction of queued_ops_sane (an idle uncompleted task's operations ARE queued) and with it
-   Theorem sched_exclusive : c01_dump (observe (fst (run (init cfg t0) evs))) = "";
-   it is false of the model for selector answers with an out-of-range size class index (see the doc). *)
+(* ---- sched_exclusive: the state predicate of C01 on every reachable state --------------------------------------------
+   [selectors_in_range s evs] (ProofsFull8.v) is a predicate over the run: every event is judged in the state it is
+   applied to (with its scheduling hints installed, as [step] does):
+   - Execute: the size class index the selector answers is below the number of size classes of the platform queue
+     the request is routed to (looked up after the clean-up that starts the call, as the scheduler does);
+   - Synchronize: the worker id is not the "no worker" placeholder, and a task reported as completed successfully has
+     a learner whose background size class index (if any) is below the number of size classes of its platform queue;
+   - KillOperations never carries status OK.
+   Outside this hypothesis the model is a totalisation ([nth idx scs 0], a kill that "succeeds"): the Go code would
+   fail with an index out of range; that analyzers never answer such an index is the ISC area's choice_in_range.
+   [panicked os]: some event of the run reported a scheduler panic (an observation the monitor flags by itself);
+   a panic in assignUnqueued / task.complete leaves a task detached, so nothing is claimed after one.
+   Conclusion: Spec.c01_dump of the observed state is "" -- every registered operation is consistent (completed:
+   neither queued nor assigned; assigned: not queued, its worker is registered in the operation's size class queue and
+   runs exactly this task; otherwise queued in the invocation it names, which exists in an existing queue), all
+   operations of a task agree, every worker's task points back to it with operations in the worker's queue and no
+   response, every queue entry is a registered queued operation of that invocation, and no operation is queued twice. *)
+Theorem sched_exclusive : forall cfg t0 evs, selectors_in_range (init cfg t0) evs ->
+  panicked (snd (run (init cfg t0) evs)) \/ c01_dump (observe (fst (run (init cfg t0) evs))) = ""%string.
+Proof. exact sched_exclusive. Qed.
+Print Assumptions sched_exclusive.
+
+(* the platform queue structure, for every run without hypothesis: platform queue keys are unique, their size class
+   lists have no duplicates, and every size class a platform queue lists has its size class queue *)
+Theorem platform_queues_structure : forall cfg t0 evs,
+  let s := fst (run (init cfg t0) evs) in
+  NoDup (map p_key (s_pqs s)) /\
+  (forall p, In p (s_pqs s) -> NoDup (p_scs p)) /\
+  (forall p c, In p (s_pqs s) -> In c (p_scs p) -> scq_exists s (mkSK (p_key p) c) = true).
+Proof. exact Sp_run. Qed.
+Print Assumptions platform_queues_structure.
+
+(* Non-vacuity: a history generated by the harness on the real InMemoryBuildQueue (103 events; ProofsFullEx.v holds
+   its configuration, start time and events as printed into the case file) satisfies the hypothesis, reports no
+   panic, and therefore its final state satisfies c01_dump. *)
+Example generated_history_in_range : selectors_in_range (init gen_cfg gen_t0) gen_evs.
+Proof. exact gen_selectors_in_range. Qed.
+Example generated_history_exclusive : c01_dump (observe (fst (run (init gen_cfg gen_t0) gen_evs))) = ""%string.
+Proof.
+  destruct (sched_exclusive gen_cfg gen_t0 gen_evs gen_selectors_in_range) as [[o [what [Ho Hp]]]|H]; [|exact H].
+  exfalso. exact (gen_no_panic o what Ho Hp).
+Qed.
